@@ -482,6 +482,13 @@ async def process_changing_cause(
         resource_registry = registry._changing
         owned_handlers = resource_registry.get_resource_handlers(resource=cause.resource)
         cause_handlers = resource_registry.get_handlers(cause=cause)
+
+        # A resuming handler that has already finished for this object in this process is not
+        # repeated, even if its progress record was purged with the superseded progress
+        # or is not visible on the (stale) object: the records alone do not guarantee that.
+        cause_handlers = [handler for handler in cause_handlers
+                          if not (handler.initial and handler.id in memory.resumed_handlers)]
+
         storage = settings.persistence.progress_storage
         state = progression.State.from_storage(body=cause.body, storage=storage, handlers=owned_handlers)
         state = state.with_purpose(cause.reason).with_handlers(cause_handlers)
@@ -522,6 +529,9 @@ async def process_changing_cause(
             state = state.with_outcomes(outcomes)
             state.store(body=cause.body, patch=cause.patch, storage=storage)
             progression.deliver_results(outcomes=outcomes, patch=cause.patch)
+            memory.resumed_handlers.update(
+                handler.id for handler in cause_handlers
+                if handler.initial and handler.id in outcomes and outcomes[handler.id].final)
 
             if state.done:
                 counters = state.counts  # calculate only once
@@ -562,6 +572,7 @@ async def process_changing_cause(
         # Once all handlers have succeeded at least once for any reason, or if there were none,
         # prevent further resume-handlers (which otherwise happens on each watch-stream re-listing).
         memory.fully_handled_once = True
+        memory.resumed_handlers.clear()  # no resuming handlers are selected from now on anyway.
 
     # Informational causes just print the log lines.
     if cause.reason == causes.Reason.GONE:
